@@ -45,6 +45,9 @@ RecSites == <<
   S("C03", "parse_tls_plaintext",  <<24, 3, 3, 0, 0, 1, 0, 0>>, << <<4, 2, 0>>, <<7, 2, 3>> >>, 3, <<>>, 0, "any"),
   S("C03", "parse_tls_plaintext",  <<24, 3, 3, 0, 0, 2, 0, 5, 1, 2, 3, 4, 5>>, << <<4, 2, 0>> >>, 8, <<>>, 0, "any"),
   S("C03", "two_step",             <<23, 3, 3, 0, 0>>, << <<4, 2, 0>> >>, 0, <<>>, 0, "cap"),
+  S("C03", "parse_tls_plaintext",  <<22, 3, 3, 0, 0, 0, 0, 0, 0>>, << <<4, 2, 0>>, <<7, 3, 4>> >>, 4, <<>>, 0, "cap"),
+  S("C03", "two_step",             <<22, 3, 3, 0, 0, 14, 0, 0, 0, 5, 0, 0, 0>>, << <<4, 2, 0>>, <<11, 3, 8>> >>, 8, <<>>, 0, "cap"),
+  S("C03", "parse_tls_plaintext",  <<22, 3, 3, 0, 0, 0, 0, 0, 0, 20, 0, 0, 1, 7>>, << <<4, 2, 0>>, <<7, 3, 9>> >>, 9, <<>>, 0, "any"),
   S("C16", "tls_parser_many",      <<23, 3, 3, 0, 0>>, << <<4, 2, 0>> >>, 0, <<21, 3, 3, 0, 2, 1, 0>>, 7, "any"),
   S("C16", "tls_parser_many",      <<22, 3, 3, 0, 4, 14, 0, 0, 0, 22, 3, 3, 0, 0, 20, 0, 0, 0>>, << <<13, 2, 0>>, <<16, 3, 4>> >>, 4, <<>>, 0, "any"),
   S("C16", "parse_dtls_plaintext_records",
@@ -53,6 +56,10 @@ RecSites == <<
 HsSites == <<
   S("C04", "parse_tls_message_handshake", <<20, 0, 0, 0>>, << <<2, 3, 0>> >>, 0, <<>>, 0, "ok"),
   S("C04", "parse_tls_message_handshake", <<14, 0, 0, 0>>, << <<2, 3, 0>> >>, 0, <<>>, 0, "ok"),
+  (* the kinds that carry no fields: whatever length the header declares is skipped, nothing more and nothing less *)
+  S("C04", "parse_tls_message_handshake", <<0, 0, 0, 0>>, << <<2, 3, 0>> >>, 0, <<14, 0, 0, 0>>, 0, "ok"),
+  S("C04", "parse_tls_message_handshake", <<5, 0, 0, 0>>, << <<2, 3, 0>> >>, 0, <<14, 0, 0, 0>>, 0, "ok"),
+  S("C04", "parse_tls_message_handshake", <<24, 0, 0, 0>>, << <<2, 3, 0>> >>, 0, <<>>, 0, "any"),
   S("C04", "parse_tls_message_handshake", <<15, 0, 0, 0>>, << <<2, 3, 0>> >>, 0, <<7>>, 0, "ok"),
   S("C04", "parse_tls_message_handshake", <<16, 0, 0, 0>>, << <<2, 3, 0>> >>, 0, <<>>, 0, "ok"),
   S("C04", "parse_tls_message_handshake", <<12, 0, 0, 0>>, << <<2, 3, 0>> >>, 0, <<>>, 0, "ok"),
